@@ -269,7 +269,9 @@ def job(cfgs):
                       cfg['battery_mode'], transport, oc)))
         for clause, cause in vio:
             v2, _ = run_config(cfg, transport)
-            key = f"{clause}/{cfg['family']}/refused:{'+'.join(cfg['refused']) or 'none'}"
+            key = f"{clause}/{cfg['family']}/refused:{'+'.join(cfg['refused']) or 'none'}" + \
+                ('/refused-block-reads:' + '+'.join(f'{a}x{b}' for a, b in cfg['refused_requests']) if cfg.get('refused_requests') else '') + \
+                ('/firmware-version-sweep' if cfg.get('versions') else '')
             if not any(c == clause for c, _ in v2):
                 key = f"{clause}/{cfg['family']}/order-dependent"
                 cause = f'{cause}; ' + 'failed during exploration but not on a fresh replay: the outcome depends on earlier executions in the same process (state outside the objects under test leaks between executions)'
@@ -294,6 +296,14 @@ def all_cases(tier, seed):
         cases.append((c, 'tcp'))
     for c in es_configs(tier, seed):
         cases.append((c, 'udp'))
+    # inverters that refuse one block READ as such (by its start and length) and serve the other reads of the same range:
+    # every subset of the three meter block reads and the battery / MPPT reads, on the models that use them
+    import itertools
+    shapes = ((36000, 58), (36000, 125), (35301, 61), (37000, 24), (39000, 22))      # (the 45-register meter read is not optional)
+    for tag, p in (('ETT', 10000), ('ETU', 15000), ('25KET', 25000), ('ETU', 3000)):
+        for r in (1, 2):
+            for sub in itertools.combinations(shapes, r):
+                cases.append((dict(family='ET', tag=tag, power=p, refused=(), battery_mode=2, refused_requests=sub), 'udp'))
     # the firmware version words of the device info, swept one at a time (no branch of the poll may hang on them)
     from ..configs import firmware_configs
     for c in firmware_configs():
